@@ -236,7 +236,8 @@ def run(tier, seed):
                 shards.append(('laws', sname, ch, tuple(M.KEY_CONFIGS)))
     _G['law_states'] = law_states
     _G['nsym'] = 3 if tier == 'quick' else 4
-    for sname in (('S45', 'Sv2', 'Sjson') if tier == 'quick' else ('S45', 'S44', 'Sjson', 'Ssim', 'Sv2', 'Sv0')):
+    focus = tuple('S45#focus:%s' % f for f in ('outputs', 'source', 'meta', 'attachments'))
+    for sname in ((('S45', 'Sv2', 'Sjson') if tier == 'quick' else ('S45', 'S44', 'Sjson', 'Ssim', 'Sv2', 'Sv0')) + focus):
         _, d1 = M.depth1(sname)
         for i in range(len(d1)):
             shards.append(('sym', sname, (i,)))
